@@ -110,7 +110,7 @@ CHECKS["C01"] = dict(
                   "12.6 k quick / 32 k thorough, minus those above the compute budget) x boundary phrase lengths x fills A,P; slab c: DES "
                   "salts (256 quick / all 4096 thorough) x 10 setting lengths x 23 phrase lengths; slab d: for successes the hash part "
                   "replaced by 3 same-length texts of the method's hash alphabet and truncated to the setting part; "
-                  "distinct_nontrivial = distinct successful result strings; every call is entered with arbitrary object contents and an arbitrary errno; slab e: salt lengths up to where the echoed setting alone exceeds 384 for sunmd5, scrypt and five sha1crypt iteration widths; the grammar includes the yescrypt (N,p) grid around N/p = 3..4; thorough adds one nine-digit rounds= per sha-crypt method"),
+                  "distinct_nontrivial = distinct successful result strings; every call is entered with arbitrary object contents and an arbitrary errno; slab e: salt lengths up to where the echoed setting alone exceeds 384 for sunmd5, scrypt and five sha1crypt iteration widths; the grammar includes the yescrypt (N,p) grid around N/p = 3..4; thorough adds one nine-digit rounds= per sha-crypt method; slab i: 22 option-field spellings (explicit default included) x 17 salts that look like an option field x 3 terminators"),
     assumptions=["only successful first calls oblige anything",
                  "settings whose decoded cost exceeds the compute budget are not hashed",
                  "phrase contents come from two fills (ASCII cycle, position-distinct 8-bit)"],
@@ -313,7 +313,7 @@ CHECKS["C14"] = dict(
     jobs=lambda tier: [dict(name="c14", variant="o2", sources=["e_c14.c"] + RT, flags=["-DVH_MALLOC_SEAM"]),
                        # TLA+ model explored by TLC; every edge of its state graph replayed against the real crypt_ra
                        dict(name="c14tla", variant="o2", script=_c14tla.run)],
-    coverage=_mc_cov("explicit-state BFS on the real crypt_ra/crypt_gensalt_ra under the allocator seam: 17 start states of (*data,*size) "
+    coverage=_mc_cov("explicit-state BFS on the real crypt_ra/crypt_gensalt_ra under the allocator seam: 23 start states (six of them with heap room behind the block, so that realloc grows it in place over old contents) of (*data,*size) "
                      "(NULL with size 0/stale/negative; exact, larger; 1-, 100-, sizeof-1-byte blocks with true/zero/negative recorded size) x "
                      "alphabet of 13 operations (3 succeeding hashes, bad character, unknown prefix, 600-byte phrase, NULL setting, caller "
                      "free+reset, gensalt_ra ok/fail, crypt_ra with its first and with its second allocator request failing, gensalt_ra with each of "
@@ -333,7 +333,7 @@ CHECKS["C14"] = dict(
     nonvacuous=lambda s, t: None if s.get("states", 0) > 50 and s.get("transitions", 0) > 500 else "state space too small",
     manifest=dict(
         text="Explicit-state model checking directly on the implementation: breadth-first search over call histories on a shared (*data,*size) "
-             "pair from 17 start states, each transition executing the real crypt_ra/crypt_gensalt_ra under an interposed allocator with a block "
+             "pair from 23 start states, each transition executing the real crypt_ra/crypt_gensalt_ra under an interposed allocator with a block "
              "ledger; invariants: *data unchanged or a live block with sizeof <= *size <= real size, erased before growth, zero after growth, "
              "result inside the block, no leak and no double free when the caller frees once.",
         note="allocator seam (malloc/realloc/free defined in the harness over __libc_*) is the observation point; search is bounded by depth 4/6 where the state space does not close earlier.",
@@ -423,7 +423,7 @@ CHECKS["C08"] = dict(
         canary_runs=int(stats.get("canary_runs", 0)), canary_detected=int(stats.get("canary_detected", 0)),
         horizon_capped_executions=int(stats.get("horizon_capped_executions", 0))),
     assumptions=["accesses are those gcc -fsanitize=thread instruments plus the interposed libc routines; hardware memory-model effects are out of scope (the library has no atomics)",
-                 "the library's import list is checked against the modelled set on every run; an unknown import is an internal error, not a pass",
+                 "the library's import list is checked on every run: libc functions with hidden static state (l64a, strtok, rand/random/*rand48, gmtime, localtime) are replaced by models whose state is part of the shared image; any other function POSIX marks as not thread-safe, and any synchronisation primitive, is an internal error, not a pass; other new imports are recorded in the evidence as assumed stateless",
                  "branching is limited to the first 60 scheduling points of an execution (only the MT-unsafe canary and broken trees have that many)"],
     nonvacuous=lambda s, t: None if s.get("canary_runs", 0) and s.get("canary_detected", 0) == s.get("canary_runs", 0) and s.get("configurations", 0) > 100 else "canary not detected: the instrument is blind",
     deadline=dict(quick=300, thorough=1700),
@@ -478,7 +478,7 @@ CHECKS["C17"] = dict(
              "(accounted from the reference's round inputs) are covered; salted/iterated function for every single salt bit, 0, 0xffffff x counts "
              "{1,2,3,25,26,725} x 64 blocks and all 4096 12-bit salts; salt 0/count 1 vs libgcrypt DES; gen-des-tables output vs checked-in tables. "
              "API: setkey/encrypt/setkey_r/encrypt_r (GLIBC_2.2.5 symbols) on weight-1/63 vectors with junk bits {0,0xfe,0x80,0x30}: 0/1 outputs, "
-             "equals DES, static == re-entrant, parity ignored, decrypt inverts; histories: BFS to closure over 11 operations against a "
+             "equals DES, static == re-entrant, parity ignored, decrypt inverts; the re-entrant pair repeated on an object at each address offset 0..15 (moved by 64 bytes between the two calls at odd offsets); histories: BFS to closure over 11 operations against a "
              "key-register model; distinct_nontrivial = distinct (key, salt, count, ciphertext) results",
         states=int(stats.get("history_states", 0)), transitions=int(stats.get("history_transitions", 0)),
         sbox_pair_inputs_covered=int(stats.get("max_sbox_pair_inputs_covered", 0)), sbox_pair_inputs_total=16384),
